@@ -226,17 +226,19 @@ Definition shown (fam : family) (color_mode : bool) (vmin vmax a4 v : Z) : Z :=
 
 (* vmin == vmax (e.g. a CONSTANT layer with the default scale): what reaches Matplotlib
    colormap mode: as above (imshow gets the entries; cmap(norm) of a degenerate Normalize is cmap(0))
-   color mode, imshow:   (data - vmin) / 0  =  nan where data = vmin (code NAN), +-inf elsewhere, clipped to 1 / 0;
-                         observed as alpha * 4
+   color mode, imshow:   (as repaired, fixes/C20-11) the normalised data is 0 everywhere: alpha 0
    color mode, hexagons: Normalize(vmin = vmax) maps everything to 0: alpha 0 *)
-Definition NAN : Z := -7.
 Definition shown_degenerate (fam : family) (color_mode : bool) (lo v : Z) : Z :=
   match fam, color_mode with
   | Hex, false => lo
   | Hex, true => 0
   | _, false => v
-  | _, true => if v =? lo then NAN else if v >? lo then 4 else 0
+  | _, true => 0
   end.
+
+(* the value shown for a layer entry, whatever the scale *)
+Definition value_shown (fam : family) (color_mode : bool) (lo hi a4 v : Z) : Z :=
+  if hi =? lo then shown_degenerate fam color_mode lo v else shown fam color_mode lo hi a4 v.
 
 Fixpoint lookup_coord (p : coord) (l : list (coord * Z)) : option Z :=
   match l with
@@ -432,10 +434,14 @@ Definition obs_layer (sp : space) (d : layer) (color_mode : bool) (vmin vmax : o
   else
     0 :: sp_h sp :: sp_w sp ::
     map (fun o => match o with
-                  | Some v => if hi =? lo then shown_degenerate (sp_family sp) color_mode lo v
-                              else shown (sp_family sp) color_mode lo hi a4 v
+                  | Some v => value_shown (sp_family sp) color_mode lo hi a4 v
                   | None => -9
                   end) (layer_view sp d)
+    (* colormap mode on an image: the colour scale handed to imshow (vmin=, vmax=) is the CURRENT one *)
+    ++ (match sp_family sp, color_mode with
+        | Hex, _ | _, true => []
+        | _, false => if hi =? lo then [] else [lo; hi]
+        end)
     (* the colour bar never touches the image; its scale is Normalize(vmin, vmax) *)
     ++ (if colorbar then (if hi =? lo then [1]                            (* Matplotlib widens a singular scale itself *)
                           else [1; 2 * lo; 2 * hi])                       (* half units *)
